@@ -10,7 +10,7 @@ BASELINE = ("cd /repo && /venv/bin/python -m pytest -ra -q -p no:cacheprovider -
 
 P = {
     "C01": ("exploration", "reference-model monitor: independent T10 bit-level decode of every observed CDB",
-            "Runs the 42 real constructors and the 38 facade methods (recording device, fake sgio/iscsi) over boundary/walking-bit/flag-product/random arguments on every opcode table that offers the command and decodes each observed CDB with an independent (byte,msb,width) reference; held = no disagreement on the executions counted in the evidence.",
+            "Runs the 42 real constructors and the 38 facade methods (recording device, fake sgio/iscsi) over boundary/walking-bit/flag-product/random arguments, values congruent mod 2^61-1 in sequence, length-only huge buffers for the high bits of allocation/transfer lengths, with other commands built in between, on every opcode table that offers the command, and decodes each observed CDB with an independent (byte,msb,width) reference; held = no disagreement on the executions counted in the evidence.",
             "vmon/spec/cdb.py is a correct transcription of SPC-4/SBC-3/SMC-3/MMC-6/SAT-3; arguments that would allocate >16 MiB buffers are clipped (listed in evidence)", "4 C01"),
     "C02": ("exploration", "round-trip monitor on the public static encode/decode with hooked build_cdb",
             "Hooks SCSICommand.build_cdb to capture the exact field values each constructor passes, then checks unmarshall_cdb(cdb)==values, marshall_cdb(unmarshall_cdb(b))==b for masked random byte strings, and single-field perturbation independence, for all 42 classes.",
@@ -28,34 +28,34 @@ P = {
             "unmarshall(marshall(d)) on library-vocabulary dictionaries, marshall(unmarshall(b)) on reference-encoded canonical responses, and single-field read-modify-write diffs confined to the field's reference bit set.",
             "canonical byte strings come from the C04 reference encoders", "4 C06"),
     "C07": ("fault_enumeration", "fault injection at substituted sgio/iscsi + trace predicates",
-            "Injects all 256 status bytes and unique sense buffers at every position of command sequences on fake sgio / fake iscsi (with and without raw_sense), through device.execute and through the facade, raw-sense on/off, and evaluates the five trace predicates of DESIGN 4 C07.",
+            "Injects all 256 status bytes and unique sense buffers at every position of command sequences (with node re-plugs, repeated UNIT ATTENTIONs, a binding that reuses one static sense buffer) on fake sgio / fake iscsi (with and without raw_sense), through device.execute, the generic SCSI.execute over all 42 classes and every facade method, raw-sense on/off, and evaluates the trace predicates of DESIGN 4 C07 (plus: one binding call per execute, earlier errors unchanged by later commands).",
             "the stand-ins model the Python-level API of cython-sgio / cython-iscsi as used by the library", "4 C07"),
     "C08": ("exploration", "reference sense parser vs SCSICheckCondition over enumerated sense buffers",
             "Constructs SCSICheckCondition for enumerated response codes x keys x ASC/ASCQ x lengths, requires construction/str/print not to raise, key/ASC/ASCQ at the SPC positions, and T10 text for the referenced subset.",
             "ASC/ASCQ reference subset in vmon/spec/sense.py", "4 C08"),
     "C09": ("exploration", "history monitor + deterministic line-level thread scheduler (sys.monitoring)",
-            "Solo baselines per command compared inside sequential histories (all ordered pairs, sampled triples) and inside enumerated single/double-preemption interleavings of 2-3 threads scheduled at library source lines, plus free-running stress threads.",
+            "Solo baselines per command compared inside sequential histories (all ordered pairs, sampled/all triples, base-class and user-derived-class use, reused argument objects, buffers of discarded commands) and inside enumerated single/double-preemption interleavings of 2-3 threads scheduled at library source lines, cold-start schedules each in a fresh interpreter (first-use races), plus free-running stress threads.",
             "preemption only at source-line granularity; bounded preemption count", "4 C09"),
     "C10": ("exploration", "reference-model monitor: bit-by-bit reference codec vs converter functions",
             "Random non-overlapping layouts (1..72-bit masks at any alignment, blobs), exhaustive values for narrow fields, random prior buffer contents; encode_dict/decode_bits/scsi_int_to_ba/scsi_ba_to_int compared with vmon/refcodec.py, plus in-vivo replay of the library's own layouts.",
             "refcodec.py self-checked at start", "4 C10"),
     "C11": ("exploration", "step-budget monitor (sys.monitoring LINE events) over hostile buffers",
-            "Every decoder is run on mutated/truncated/garbage buffers under a logical step budget of 10000+1024*len library line events and a tracemalloc bound; exceeding it aborts the call and is the violation.",
+            "Every decoder is run on mutated/truncated/byte-replaced/garbage buffers under (a) a logical step budget of 10000+1024*len library line events, (b) an opaque-CPU budget (process CPU time beyond 3us per counted line <= 0.5s+20us/byte) for work hidden inside one step, (c) a tracemalloc bound, and (d) a proportionality monitor (16x-64x more descriptors may cost at most 2.5x the steps per byte); exceeding a budget aborts the call and is the violation.",
             "bounded liveness: a decoder within budget is 'terminating'; budget slope is 4x the costliest terminating decoder", "4 C11"),
     "C12": ("exploration", "history + executable model (shadow disk) against a reference-decoding target",
             "Random write/write-same/read/sync/capacity/inquiry histories through the facade over SCSIDevice(fake sgio) and ISCSIDevice(fake iscsi) against a strict target that decodes CDBs with the reference only; reads are compared with the caller-side shadow disk.",
             "vmon/sim/target.py and the binding stand-ins", "4 C12"),
     "C13": ("exploration", "event-order and identity monitor on a recording device",
-            "38 facade methods x opcode tables x every subset of optional keyword arguments: execute count, object identity of command and buffers, unmarshall-after-execute ordering, result equals decode of device-left bytes, opcode = table value = T10 value, arguments reach the CDB.",
+            "38 facade methods x opcode tables x every subset of optional keyword arguments: execute count, object identity of command and buffers, unmarshall-after-execute ordering, result equals decode of device-left bytes, opcode = table value = T10 value, arguments reach the CDB; device failures injected after the command was taken (9 exception types); long-lived facade sessions of 5-40 mixed calls with all returned commands held.",
             "FACADE argument table in vmon/spec/cdb.py fixed at the pinned commit", "4 C13"),
     "C14": ("exploration", "exhaustive walk of live enumerations against a T10 reference table",
-            "All 249 opcode entries x 5 tables, all service-action tables, 9 status names, 256 opcode values through init_cdb; second witness /usr/include/scsi/scsi.h.",
+            "All 249 opcode entries x 5 tables, all service-action tables, 9 status names, 256 opcode values through init_cdb; second witness /usr/include/scsi/scsi.h; the live tables are walked again after a usage phase (attaches, every command with every opcode object of its value, every facade method) and any entry that appeared/changed is reported.",
             "vmon/spec/opcodes.py; SCC-2 maintenance service actions are a declared gap", "4 C14"),
     "C15": ("fault_enumeration", "event-sequence enumeration over real device nodes + invariants at the sgio boundary",
-            "All sequences up to a length bound over {exec, exec->CHECK CONDITION, replug, unplug, replug+close failure, close, with-exit, with-exit-by-exception} x detect on/off x ro/rw on real files under /dev/shm; inode/closed/leak invariants evaluated inside the fake sgio.execute and at quiescent points via /proc/self/fd.",
+            "All sequences up to a length bound over {exec, exec->CHECK CONDITION, replug, unplug, replug+close failure, replug+re-open failure} + {close, with-exit, with-exit-by-exception, facade with-exit} x detect on/off x ro/rw x {regular file, symlink} on real nodes under /dev/shm, plus facade re-attach sequences; inode/closed/leak invariants evaluated inside the fake sgio.execute and at quiescent points via /proc/self/fd.",
             "replug = rename-over (new inode); TOCTOU windows inside one execute() are outside the quantifier", "4 C15"),
     "C16": ("exploration", "exhaustive attach enumeration against a simulated target",
-            "32 device types x 8 qualifiers x 2 transports attaches, then ordered pairs/triples of re-attach over fresh devices; checks the recorded INQUIRY CDB and the selected opcode table / primary commands.",
+            "32 device types x 8 qualifiers x 2 transports attaches, ordered pairs/triples of re-attach over fresh devices (iSCSI: LUNs of one target), a facade moved back and forth between live devices, attach under pending CHECK CONDITIONs; checks the recorded INQUIRY CDB, the selected opcode table, primary and service-action commands actually sent afterwards, and that no command goes through a closed handle.",
             "fake transports + target", "4 C16"),
     "C17": ("exploration", "refusal monitor with a recording device",
             "Invalid-class inputs for every refusal in the statement through constructors and facade; requires the specific exception class name, zero execute calls, no object returned; valid neighbours must not be refused.",
